@@ -457,11 +457,14 @@ func (r *yieldRewriter) rewriteSwitchStmt(
 	children *block,
 ) *block {
 	allCaseTrival := true
+	// whether a clause contains a break referring to this switch
+	breakable := false
 	var cases []ast.Stmt
 	for _, it := range body.List {
 		// yield is not supported in case expr, but
 		// yield has no return, no need to assert
 		clause := it.(*ast.CaseClause)
+		breakable = breakable || hasBreakList(clause.Body)
 		caseBody := r.rewriteBlockStmt(X.Block(clause.Body...), kindSwitch)
 		cases = append(cases, X.Case(clause.List, caseBody.block.List))
 		allCaseTrival = allCaseTrival && caseBody.mustNoYield()
@@ -502,6 +505,17 @@ func (r *yieldRewriter) rewriteSwitchStmt(
 		X.Block(cases...),
 	)
 	children = r.combineIfNecessary(children)
+	if breakable {
+		// a break following a yield sits in a callback, where it is rewritten to
+		// `return Break()` in pass3, skipping the rest of the case clause;
+		// Breakable stops it at the end of the switch:
+		// Breakable(Delay(func() Seq[T] { switch { ... }; return Normal() }))
+		switchBlock := mkBlock(kindDelay)
+		switchBlock.push(switchStmt, kindSwitch)
+		r.generateLastNormalIfNecessary(switchBlock)
+		children.pushReturn(r.SeqCall(cstBreakable, r.CallDelay(switchBlock.block)), kindFor)
+		return children
+	}
 	children.push(switchStmt, kindSwitch)
 	return children
 }
@@ -768,6 +782,32 @@ func (r *yieldRewriter) rewriteBreakContinues(body *ast.BlockStmt) {
 		exitSrcSwitch  = srcSwitchStack.pop
 		inSrcSwitch    = srcSwitchStack.top
 
+		// the switch stmts wrapped in Breakable(Delay(func() { switch ... })):
+		// a break in their callbacks is `return Break()`, stopped by Breakable
+		breakableSwitches = map[ast.Stmt]bool{}
+		markBreakable     = func(call *ast.CallExpr) {
+			idx, ok := call.Fun.(*ast.IndexExpr)
+			if !ok || len(call.Args) != 1 {
+				return
+			}
+			name := ""
+			switch x := idx.X.(type) {
+			case *ast.SelectorExpr:
+				name = x.Sel.Name
+			case *ast.Ident:
+				name = x.Name
+			}
+			if name != cstBreakable {
+				return
+			}
+			// Breakable(Delay(func() Seq[T] { switch ... }))
+			if delay, ok := call.Args[0].(*ast.CallExpr); ok && len(delay.Args) == 1 {
+				if lit, ok := delay.Args[0].(*ast.FuncLit); ok && len(lit.Body.List) > 0 {
+					breakableSwitches[lit.Body.List[0]] = true
+				}
+			}
+		}
+
 		isGeneratedFuncLit = func(f *ast.FuncLit) bool { return f.Type.Func == token.NoPos }
 		inUserFuncLit      = func() bool {
 			top := funcLitStack.top()
@@ -848,7 +888,7 @@ func (r *yieldRewriter) rewriteBreakContinues(body *ast.BlockStmt) {
 		case *ast.SwitchStmt, *ast.TypeSwitchStmt, *ast.SelectStmt:
 			// a select left in the output has no yield inside, a break leaves it like a switch
 			enterSwitch(true)
-			enterSrcSwitch(true)
+			enterSrcSwitch(!breakableSwitches[n.(ast.Stmt)])
 		case *ast.FuncLit:
 			enterLoop(false)
 			enterSwitch(false)
@@ -858,6 +898,7 @@ func (r *yieldRewriter) rewriteBreakContinues(body *ast.BlockStmt) {
 			if isMonadicLoop(n) {
 				enterSrcSwitch(false)
 			}
+			markBreakable(n)
 		}
 		return true
 	}, func(c *astutil.Cursor) bool {
